@@ -225,7 +225,7 @@ theorem matchesRec_comm (a b : Record) : a.matchesRec b = b.matchesRec a := by
   constructor <;> (rintro ⟨h1, h2, h3, h4, h5⟩; exact ⟨h1.symm, h2.symm, h3.symm, h4.symm, h5.symm⟩)
 
 theorem sameRecord_iff (a b : Record) :
-    a.sameRecord b = true ↔ a.name = b.name ∧ a.ty = b.ty ∧ a.cls = b.cls ∧ a.rdata.wire = b.rdata.wire := by
+    a.sameRecord b = true ↔ lower a.name = lower b.name ∧ a.ty = b.ty ∧ a.cls = b.cls ∧ a.rdata.wire = b.rdata.wire := by
   simp [sameRecord, and_assoc]
 
 theorem halflifePassed_eq_false_iff (r : Record) (now : Nat) :
